@@ -2,6 +2,7 @@ package transfer
 
 import (
 	"io"
+	"time"
 
 	"github.com/sheerbytes/sheerbytes/pkg/manifest"
 )
@@ -70,6 +71,11 @@ type vMemStream struct {
 	closed  bool
 	duplex  bool // what the code under test writes goes to out instead of being read back
 	out     []byte
+	// native pacing only (ignored by the engine, which explores every schedule anyway): bytes from
+	// offset gateAt on become readable gateDelay milliseconds after the first read reached that offset
+	gateAt    int
+	gateDelay int
+	gateDone  bool
 }
 
 func (m *vMemStream) Read(p []byte) (int, error) {
@@ -77,6 +83,14 @@ func (m *vMemStream) Read(p []byte) (int, error) {
 		return 0, io.EOF
 	}
 	avail := m.buf[m.rpos:]
+	if m.gateDelay > 0 && !m.gateDone && !vSymbolic() {
+		if m.rpos >= m.gateAt {
+			time.Sleep(time.Duration(m.gateDelay) * time.Millisecond)
+			m.gateDone = true
+		} else if m.rpos+len(avail) > m.gateAt {
+			avail = avail[:m.gateAt-m.rpos]
+		}
+	}
 	if m.maxRead > 0 && len(avail) > m.maxRead {
 		avail = avail[:m.maxRead]
 	}
